@@ -34,6 +34,12 @@ def universe(fd, lengths: dict, typed=True, rng=None):
     With rng: the items are a random selection in random order from a larger pool, so that within one process the same
     (name, letter, length) comes with different labels and orders (anything remembered per name/letter/length would show)."""
     out = {}
+    names = dict(NAMES)
+    if rng is not None and len(lengths) > 1 and rng.random() < 0.25:
+        # the same NAMES attached to other letters than in earlier universes of this process (a name says nothing about the letter)
+        ls = list(lengths)
+        for a_, b_ in zip(ls, [ls[j] for j in rng.permutation(len(ls))]):
+            names[a_] = NAMES[b_]
     for l, n in lengths.items():
         kw = {}
         if typed and DTYPES.get(l) is not None:
@@ -49,7 +55,7 @@ def universe(fd, lengths: dict, typed=True, rng=None):
                     items = [items[j] for j in rng.permutation(n)]  # ... possibly not ascending
             else:
                 items = [pool[j] for j in rng.permutation(len(pool))[:n]]
-        out[l] = fd.Dimension(letter=l, name=NAMES[l], items=list(items), **kw)
+        out[l] = fd.Dimension(letter=l, name=names[l], items=list(items), **kw)
     return out
 
 
